@@ -290,7 +290,7 @@ pub fn run(ctx: &Ctx) {
     ctx.rule("mrhs-vs-singles: an S-column problem (S in {1,2,3,5,8,12}, incl. duplicated and linearly dependent columns, weights, both flavours, f32/f64), the S single-column problems and a column-permuted S-column problem driven through the same alpha-history (1..4 wide updates); per column: coefficient column, residual block and every Jacobian block compared with kappa-scaled twin tolerances, total row counts N·S; S=1: bitwise agreement with the single problem recorded. rank-deficient: the same comparison at states with two exactly equal decay constants and a user threshold (tolerances scaled with the condition number of the kept part). permuted-fit: fits of well-separated decay models with 2..5 columns, fitted alpha equal to 1e-6 (f64) under permutation and coefficients permuted. non-trivial = S>1 and residual > 1e-3 |Y_w|");
     let t = ctx.tier;
     let b = t.pick(15.0, 150.0);
-    ctx.run_cases("mrhs-vs-singles", t.pick(1200, 30000), b, |r, c, o| if c % 3 == 0 { twin_case::<f32>(r, c, o) } else { twin_case::<f64>(r, c, o) });
-    ctx.run_cases("rank-deficient", t.pick(500, 10000), b, |r, c, o| if c % 3 == 0 { rankdef_case::<f32>(r, c, o) } else { rankdef_case::<f64>(r, c, o) });
-    ctx.run_cases("permuted-fit", t.pick(300, 8000), b, |r, c, o| if c % 4 == 0 { fit_perm_case::<f32>(r, c, o) } else { fit_perm_case::<f64>(r, c, o) });
+    ctx.run_cases("mrhs-vs-singles", t.pick(5000, 30000), b, |r, c, o| if c % 3 == 0 { twin_case::<f32>(r, c, o) } else { twin_case::<f64>(r, c, o) });
+    ctx.run_cases("rank-deficient", t.pick(2000, 10000), b, |r, c, o| if c % 3 == 0 { rankdef_case::<f32>(r, c, o) } else { rankdef_case::<f64>(r, c, o) });
+    ctx.run_cases("permuted-fit", t.pick(1500, 8000), b, |r, c, o| if c % 4 == 0 { fit_perm_case::<f32>(r, c, o) } else { fit_perm_case::<f64>(r, c, o) });
 }
